@@ -48,6 +48,10 @@ pub struct ServerHandle {
 }
 
 impl ServerHandle {
+    /// a handle that owns no server (used while swapping servers on a port)
+    pub fn placeholder(addr: SocketAddr) -> Self {
+        ServerHandle { addr, rt: None }
+    }
     /// stop the server at once (drops its runtime, releasing the UDP port)
     pub fn stop(mut self) {
         if let Some(rt) = self.rt.take() {
@@ -89,8 +93,18 @@ pub fn start_server(certs: &Path, bind: &str) -> Result<ServerHandle> {
             }
         }
     });
-    let addr = rx.recv_timeout(Duration::from_secs(10)).context("server start")?.map_err(|e| anyhow!(e))?;
-    Ok(ServerHandle { addr, rt: Some(rt) })
+    // never drop the runtime implicitly: that panics when called from an asynchronous context
+    match rx.recv_timeout(Duration::from_secs(10)) {
+        Ok(Ok(addr)) => Ok(ServerHandle { addr, rt: Some(rt) }),
+        Ok(Err(e)) => {
+            rt.shutdown_background();
+            Err(anyhow!(e))
+        }
+        Err(e) => {
+            rt.shutdown_background();
+            Err(anyhow!("server start: {e}"))
+        }
+    }
 }
 
 pub async fn connect_client(addr: SocketAddr, certs: &Path, backoff: BackoffStrategy) -> Result<Client> {
